@@ -256,8 +256,13 @@ def judgeExtra (hNew hOld : HCtx) (op res : Array String) (dump : Option St) : H
       let bits := if hOld.scalar == "f32" then 16 else 38
       let d := s.extent [lo, hi] / 2 ^ bits
       if name == "rectv" then (hNew, chk (decide (s.RectVerticesOK lo hi got)) "C16" "rect-vertices-wrong" feat)
-      -- the edge metric divides (intersection parameters): exact tangency may round either way even
-      -- on integer grids, so edges are always judged up to the slack `d`
+      -- the rectangle metric only compares quotients of cross products of coordinate differences
+      -- with 0 and 1: on the small-integer / dyadic families every difference and product is exact
+      -- and the correctly rounded quotient is on the right side of 0 and 1, so the edge set is
+      -- judged exactly there (in particular rectangles degenerate to a segment or a point);
+      -- elsewhere up to the slack `d`
+      else if hOld.fam.startsWith "grid" || hOld.fam == "line" || hOld.fam == "offset" then
+        (hNew, chk (decide (s.RectEdgesOK lo hi got)) "C16" "rect-edges-wrong" feat)
       else (hNew, chk (decide (s.RectEdgesTolOK lo hi d got)) "C16" "rect-edges-wrong" feat)
     | _, _, _ => (hNew, [⟨"INTERNAL", "protocol", s!"{name}: {res.toList}"⟩])
   | "circv" | "circe" =>
